@@ -289,6 +289,8 @@ func c09bRun(rep *lib.Report) {
 }
 
 // ---- (c) repository operations under a single transient store failure (E1, fault enumeration) -----------------
+// A failed delete-repo / delete-files is run again without fault: the retry works (or the first attempt had completed) and
+// the postcondition of a successful command then holds (nothing of the repository is left behind).
 
 func c09cFaults(t *testing.T, rep *lib.Report) {
 	gates := map[string]func(string, string) bool{"meta": allCalls, "vmeta": allCalls}
@@ -343,6 +345,18 @@ func c09cFaults(t *testing.T, rep *lib.Report) {
 				x.Violate("C09|under-fault|other-repository-changed|"+kind, fmt.Sprintf("%s under %s: repository ab observed %q (%v), before %q", o.name, site, ob, oerr, before["ab"]))
 			}
 			st := cw.w.Stores()
+			if err != nil && kind != "rename" {
+				// the user runs the command again (a rename cannot be re-run: its target exists by now)
+				if rerr := noPanic(x, func() error { return o.run(st) }); rerr != nil {
+					// fine only if the first attempt had in fact completed (its last write landed, then the error came back)
+					if !(kind == "delete-repo" && core.RepoExists("a", st) != nil) {
+						x.Violate("C09|under-fault|retry-fails|"+kind, fmt.Sprintf("%s failed under %s (%v); run again without any fault it fails too: %v", o.name, site, err, rerr))
+						return
+					}
+				}
+				err = nil // from here on the postcondition of a successful command applies
+				site += ", then a fault-free retry"
+			}
 			aExists := core.RepoExists("a", st) == nil
 			switch kind {
 			case "rename":
